@@ -9,7 +9,7 @@ from props.common import load_impl, exc_name
 from props import kern
 
 RULE = ("the extension is re-cythonized and compiled from /repo's shapley_cy.pyx for this run; random kernel argument arrays on a size ladder "
-        "(1 .. 2000 units quick, .. 65536 thorough; 1-130 validation points; 1-6 classes; tie groups; utilities up to 1e6): (i) rebuilt-cy vs Python "
+        "(1 .. 2000 units and one size between 16 386 and 20 384 quick, .. 65536 thorough; 1-130 validation points; 1-6 classes; tie groups; utilities up to 1e6): (i) rebuilt-cy vs Python "
         "reference within 8*n*2^-53*scale, (ii) each vs the exact rational model Ds.Kernel.importances (n <= 400) within 1e-9*(1+scale), (iii) every kernel call is repeated on the SAME argument arrays, which must come back byte-identical and give the same vector; (iv) rebuilt-cy "
         "vs the Float instance of the same model function bit for bit (n <= 2000, recorded). Non-trivial = >= 2 units with >= 2 labels and non-constant "
         "utilities; distinct = distinct (size, seed-derived content) cases.")
@@ -19,7 +19,7 @@ def run(ctx):
     I = load_impl(ctx)
     rng = ctx.rng
     q = ctx.tier == "quick"
-    ladder = [1, 2, 3, 5, 8, 13, 40, 100, 400, 1000, 2000] if q else [1, 2, 3, 4, 5, 7, 10, 16, 33, 100, 400, 1000, 2000, 8192, 20000, 65536]
+    ladder = [1, 2, 3, 5, 8, 13, 40, 100, 400, 1000, 2000, 16385 + rng.randrange(1, 4000)] if q else [1, 2, 3, 4, 5, 7, 10, 16, 33, 100, 400, 1000, 2000, 8192, 20000, 65536]
     reps = 3 if q else 6
     bit_same = bit_total = 0
     worst_rel = 0.0
